@@ -14,14 +14,15 @@ const maxEnd = 2147483647
 
 // Frag is one path fragment in a form both sides understand.
 type Frag struct {
-	Kind   byte // c n w d u s f
-	Key    string
-	N      int
-	Mem    []any  // 'u': string or int64 members
-	S      []int  // 's': the Go Slice (0..3 ints)
-	Scr    *Scr   // 'f': the filter script as a tree
-	Script string // 'f': its text (without "[?(" and ")]"), as the library parses it
-	filt   *jp.Filter
+	Kind    byte // c n w d u s f
+	Key     string
+	N       int
+	Mem     []any  // 'u': string or int64 members
+	S       []int  // 's': the Go Slice (0..3 ints)
+	NoStart bool   // 's': the start is not written (`[:e:t]`); the library's parser then stores 0
+	Scr     *Scr   // 'f': the filter script as a tree
+	Script  string // 'f': its text (without "[?(" and ")]"), as the library parses it
+	filt    *jp.Filter
 }
 
 func fChild(k string) Frag { return Frag{Kind: 'c', Key: k} }
@@ -51,6 +52,10 @@ func (f *Frag) goFrag() jp.Frag {
 		copy(u, f.Mem)
 		return u
 	case 's':
+		if f.NoStart {
+			// only the text form can leave the start out when an end or a step follows
+			return jp.MustParseString("$" + pathText(Path{*f}))[1]
+		}
 		return jp.Slice(append([]int{}, f.S...))
 	default:
 		if f.filt == nil {
@@ -97,6 +102,16 @@ func (p Path) hasIntUnion() bool {
 					return true
 				}
 			}
+		}
+	}
+	return false
+}
+
+// hasNegStep: some slice fragment has a negative step.
+func (p Path) hasNegStep() bool {
+	for _, f := range p {
+		if f.Kind == 's' && len(f.S) > 2 && f.S[2] < 0 {
+			return true
 		}
 	}
 	return false
@@ -161,7 +176,7 @@ func (p Path) wire() string {
 		case 's':
 			// an absent start is 0, an absent step is 1 in every evaluator; only the end has a sentinel
 			st := "_"
-			if len(f.S) > 0 {
+			if len(f.S) > 0 && !f.NoStart {
 				st = strconv.Itoa(f.S[0])
 			}
 			parts[i] = "s:" + st + ":" + optInt(f.S, 1) + ":" + optInt(f.S, 2)
@@ -252,7 +267,11 @@ func (g *pathGen) frag() Frag {
 				s = append(s, g.smallInt())
 			}
 		}
-		return fSlice(s...)
+		f := fSlice(s...)
+		if n >= 2 && g.r.Intn(5) == 0 {
+			f.S[0], f.NoStart = 0, true
+		}
+		return f
 	default:
 		return fFilter(g.script())
 	}
